@@ -62,10 +62,14 @@ package keystore
 
 //@ func (*KeystoreManagerForPoC).GenerateNewPublicKey$1
 //@   assert-at call nextAddresses one-key-on-the-external-branch-inside-the-transaction: arg1 == dbTransaction && arg2 == false && arg3 == 1
-//@ func (*KeystoreManagerForPoC).GenerateNewPublicKey$2
-//@   assert-at call updateManagedAddress the-keys-just-issued-become-findable: arg2 == managedAddresses
+//@ func (*KeystoreManagerForPoC).GenerateNewPublicKey$1
+//@   assert-at call fetchChildNum counters-read-inside-the-transaction-from-this-keystore-bucket: arg0 == lastresult("FetchBucket")
+//@ func (*AddrManager).setManagedAddresses
+//@   loop * invariant registered-so-far: 0 <= #iter && #iter <= len(managedAddresses) && (forall j int :: 0 <= j && j < #iter ==> has(a.addrs, managedAddresses[j].address))
+//@   ensures counters-refreshed-from-the-values-stored-by-the-transaction: a.branchInfo.nextExternalIndex == exChildNum && a.branchInfo.nextInternalIndex == inChildNum
 
 //@ func (*KeystoreManagerForPoC).GenerateNewPublicKey
+//@   assert-at call setManagedAddresses the-keys-just-issued-become-findable-with-the-stored-counters: arg1 == managedAddresses && arg2 == inChildNum && arg3 == exChildNum
 //@   assert-at call SerializeCompressed public-key-of-the-issued-address: arg0 == managedAddr.pubKey
 //@   assert-at call ParsePubKey returned-key-is-that-public-key: arg0 == lastresult("SerializeCompressed")
 //@   assert-at return#-2 ordinal-is-the-derivation-index-of-the-returned-key: len(managedAddresses) == 0 || (result1 == managedAddresses[0].derivationPath.Index && result0 == lastresult("ParsePubKey"))
